@@ -19,6 +19,7 @@ import (
 	"encoding/json"
 	"fmt"
 	"math/big"
+	"os"
 	"strings"
 
 	"github.com/ontio/ontology/common"
@@ -230,6 +231,28 @@ func (w *world) oracle(in *blockInput, blk *types.Block, obs []*txObs, notifies 
 		}
 		fee := new(big.Int).Mul(new(big.Int).SetUint64(n.GasConsumed), scale)
 		class := "tx:" + d.Kind
+		if d.Kind == "composite" {
+			class += ":" + d.Code
+			for _, st := range strings.Split(d.Code, ",") {
+				c.Count("step:" + st)
+			}
+			if n.State == event.CONTRACT_STATE_FAIL && o.Probe != nil && len(o.Probe.Cache) > 0 {
+				c.Count("composite:failed-after-writes")
+			}
+			if o.Probe != nil && os.Getenv("C05_DEBUG") != "" {
+				e := o.Probe.Err
+				if len(e) > 90 {
+					e = e[:90]
+				}
+				c.Count("dbg:" + d.Code + " => " + e)
+			}
+		}
+		// (0) an execution writes only into the transaction cache: nothing may reach the block
+		// overlay before the handler commits (a flush in mid-transaction survives a later failure)
+		if o.Probe != nil && len(o.Probe.Flushed) > 0 {
+			c.Fail("flush:mid-transaction-commit", "an execution writes storage only through the transaction cache; only the handler commits it", in,
+				fmt.Sprintf("%d keys reached the block overlay during the execution, first %s", len(o.Probe.Flushed), hx.Hex(o.Probe.Flushed[0].K)), class)
+		}
 		if n.State == event.CONTRACT_STATE_FAIL {
 			c.Count("outcome:failed")
 			if o.Probe != nil {
